@@ -16,7 +16,8 @@ EXTENDS Lattice, TLC, Json, SequencesExt
 CONSTANTS K,        \* coordinates 0..K
           MaxV,     \* maximum number of distinct ring vertices
           WithHoles,\* TRUE: also emit polygons with one or two holes from HoleCat strictly inside
-          HoleMinA2 \* holes are only added to shells of at least this doubled area
+          HoleMinA2,\* holes are only added to shells of at least this doubled area
+          BigN      \* set of sizes n of the parametric "staircase" family (2n + 2 vertices; size-gated code paths), may be {}
 
 Grid == (0 .. K) \X (0 .. K)
 
@@ -65,7 +66,15 @@ Apart(h1, h2) ==
           ~SegSegMeet(h1[i], h1[(i % Len(h1)) + 1], h2[j], h2[(j % Len(h2)) + 1])
     /\ RingPos(h1[1], RingOf(h2)) = "E" /\ RingPos(h2[1], RingOf(h1)) = "E"
 
-Init == /\ path \in {<<p>> : p \in Grid} /\ phase = "open" /\ hole = <<>>
+\* Staircase family: (0,0), (n,0), then n steps up and to the left, ending at (0,n): 2n + 2 vertices, area n(n+1)/2.
+\* A simple ccw ring in canonical form for every n >= 1, far beyond the vertex counts the enumeration reaches.
+RECURSIVE Steps(_, _)
+Steps(n, k) == IF k > n THEN <<>> ELSE << <<n - k + 1, k>>, <<n - k, k>> >> \o Steps(n, k + 1)
+StairPath(n) == << <<0, 0>>, <<n, 0>> >> \o Steps(n, 1)
+UnitHole(x, y) == << <<x, y>>, <<x + 1, y>>, <<x + 1, y + 1>>, <<x, y + 1>> >>
+
+Init == \/ /\ path \in {<<p>> : p \in Grid} /\ phase = "open" /\ hole = <<>>
+        \/ /\ path \in {StairPath(n) : n \in BigN} /\ phase = "big" /\ hole = <<>>
 
 RECURSIVE SumOver(_, _, _)
 SumOver(Op(_), hs, i) == IF i > Len(hs) THEN 0 ELSE Op(RingOf(hs[i])) + SumOver(Op, hs, i + 1)
@@ -103,9 +112,16 @@ AddHole2 == /\ phase = "holed" /\ WithHoles
             /\ \E h \in HoleCat : /\ LexLess(hole[1], h[1]) /\ StrictlyInside(h, RingOf(path)) /\ Apart(hole, h)
                                   /\ phase' = "holed2" /\ UNCHANGED <<path, hole>>
                                   /\ PrintT(<<"CASE", ToJson(Case(path, <<hole, h>>))>>)
-Next == Extend \/ Close \/ AddHole \/ AddHole2
+\* the big family: without holes, with one and with two unit holes (strictly inside for n >= 8)
+EmitBig == /\ phase = "big" /\ phase' = "bigdone" /\ UNCHANGED <<path, hole>>
+           /\ PrintT(<<"CASE", ToJson(Case(path, <<>>))>>)
+           /\ PrintT(<<"CASE", ToJson(Case(path, <<UnitHole(1, 1)>>))>>)
+           /\ PrintT(<<"CASE", ToJson(Case(path, <<UnitHole(1, 1), UnitHole(1, 3)>>))>>)
+Next == Extend \/ Close \/ AddHole \/ AddHole2 \/ EmitBig
 Spec == Init /\ [][Next]_vars
 
 \* sanity of the generator itself: an emitted shell is a simple ring with positive area
-ShellOK == phase # "open" => Area2(RingOf(path)) > 0 /\ Len(path) >= 3
+ShellOK == /\ phase # "open" => Area2(RingOf(path)) > 0 /\ Len(path) >= 3
+           /\ phase \in {"big", "bigdone"} => /\ 2 * Area2(RingOf(path)) = 2 * ((Len(path) - 2) \div 2) * (((Len(path) - 2) \div 2) + 1)
+                                              /\ StrictlyInside(UnitHole(1, 1), RingOf(path)) /\ StrictlyInside(UnitHole(1, 3), RingOf(path))
 =============================================================================
